@@ -73,6 +73,8 @@ type (
 		response  *HTTPResponse
 		createdAt int64
 		expiredAt int64
+		// removed the cache is removed(purged) from dispatcher
+		removed bool
 	}
 )
 
@@ -235,9 +237,19 @@ func (hc *httpCache) initFromStore() (err error) {
 	return
 }
 
+// markRemoved mark the cache as removed(purged) from dispatcher,
+// a removed cache will not be saved to store
+func (hc *httpCache) markRemoved() {
+	hc.mu.Lock()
+	defer hc.mu.Unlock()
+	hc.removed = true
+}
+
 // saveToStore save cache to store
 func (hc *httpCache) saveToStore() (err error) {
-	if hc.store == nil || len(hc.key) == 0 {
+	// 已被删除的缓存（删除时正在fetching）不再保存，
+	// 否则删除后该请求完成时又将旧数据写入store，后续请求则从store中读取到已被删除的数据
+	if hc.store == nil || len(hc.key) == 0 || hc.removed {
 		return
 	}
 	data, err := hc.Bytes()
